@@ -310,13 +310,23 @@ fn sequential(rt: &Rt, seed: u64, n: u64, ev: &mut Evidence) {
 
 /// (b) atomicity: writers set N registers to one common value per transaction (yielding
 /// between individual updates), readers read all N in one request
-fn stress(rt: &Rt, args: &Args, ev: &mut Evidence) {
+fn stress(rt: &Rt, args: &Args, ev: &mut Evidence, kind: usize) {
+    // kind 0: holding registers (FC3), 1: coils (FC1, bit-packed reply), 2: discrete inputs (FC2), 3: input registers (FC4)
     const N: u16 = 50;
+    let fc = [3u8, 1, 2, 4][kind];
+    let kind_name = ["holding_registers", "coils", "discrete_inputs", "input_registers"][kind];
     let Some(srv) = start_server(
         rt,
-        |db| {
+        move |db| {
             for i in 0..N {
-                unsafe { ffi::rodbus_database_add_holding_register(db, i, 0) };
+                unsafe {
+                    match kind {
+                        0 => ffi::rodbus_database_add_holding_register(db, i, 0),
+                        1 => ffi::rodbus_database_add_coil(db, i, false),
+                        2 => ffi::rodbus_database_add_discrete_input(db, i, false),
+                        _ => ffi::rodbus_database_add_input_register(db, i, 0),
+                    }
+                };
             }
         },
         false,
@@ -340,7 +350,14 @@ fn stress(rt: &Rt, args: &Args, ev: &mut Evidence) {
                     let (_c, cb) = db_callback_with(move |db| {
                         open2.fetch_add(1, Ordering::SeqCst);
                         for i in 0..N {
-                            unsafe { ffi::rodbus_database_update_holding_register(db, i, v) };
+                            unsafe {
+                                match kind {
+                                    0 => ffi::rodbus_database_update_holding_register(db, i, v),
+                                    1 => ffi::rodbus_database_update_coil(db, i, v % 2 == 1),
+                                    2 => ffi::rodbus_database_update_discrete_input(db, i, v % 2 == 1),
+                                    _ => ffi::rodbus_database_update_input_register(db, i, v),
+                                }
+                            };
                             // user code inside the transaction: a legitimate suspension point
                             if i % 8 == 0 {
                                 std::thread::yield_now();
@@ -359,13 +376,13 @@ fn stress(rt: &Rt, args: &Args, ev: &mut Evidence) {
             })
         })
         .collect();
-    let reads_goal = args.tier.pick(40_000u64, 1_000_000);
+    let reads_goal = if kind == 0 { args.tier.pick(40_000u64, 1_000_000) } else { args.tier.pick(8_000u64, 200_000) };
     let reads = Arc::new(AtomicU64::new(0));
     let overlaps = Arc::new(AtomicU64::new(0));
     let torn: Arc<Mutex<Vec<String>>> = Arc::new(Mutex::new(vec![]));
     let backwards = Arc::new(AtomicU64::new(0));
     let t0 = Instant::now();
-    let limit = Duration::from_secs(args.tier.pick(60, 900));
+    let limit = Duration::from_secs(if kind == 0 { args.tier.pick(60, 900) } else { args.tier.pick(20, 240) });
     let readers: Vec<_> = (0..6)
         .map(|r| {
             let (srv, reads, overlaps, torn, open) = (srv.clone(), reads.clone(), overlaps.clone(), torn.clone(), open.clone());
@@ -378,23 +395,25 @@ fn stress(rt: &Rt, args: &Args, ev: &mut Evidence) {
                 while (reads.load(Ordering::SeqCst) < reads_goal || overlaps.load(Ordering::SeqCst) < reads_goal / 10) && t0.elapsed() < limit {
                     tx = tx.wrapping_add(1);
                     let before = open.load(Ordering::SeqCst);
-                    let Some(pdu) = read_pdu(&mut s, tx, 1, 3, 0, N) else { break };
+                    let Some(pdu) = read_pdu(&mut s, tx, 1, fc, 0, N) else { break };
                     let after = open.load(Ordering::SeqCst);
                     if before > 0 || after > 0 {
                         overlaps.fetch_add(1, Ordering::SeqCst);
                     }
                     reads.fetch_add(1, Ordering::SeqCst);
-                    if pdu.len() != 2 + 2 * N as usize {
+                    let bits = fc == 1 || fc == 2;
+                    let want_len = if bits { 2 + (N as usize + 7) / 8 } else { 2 + 2 * N as usize };
+                    if pdu.len() != want_len || pdu[0] != fc {
                         torn.lock().unwrap().push(format!("unexpected reply {}", hex(&pdu[..pdu.len().min(8)])));
                         break;
                     }
-                    let vals: Vec<u16> = pdu[2..].chunks(2).map(|c| ((c[0] as u16) << 8) | c[1] as u16).collect();
+                    let vals: Vec<u16> = if bits { (0..N as usize).map(|i| ((pdu[2 + i / 8] >> (i % 8)) & 1) as u16).collect() } else { pdu[2..].chunks(2).map(|c| ((c[0] as u16) << 8) | c[1] as u16).collect() };
                     if vals.iter().any(|v| *v != vals[0]) {
                         let mut d: Vec<u16> = vals.clone();
                         d.dedup();
                         let mut g = torn.lock().unwrap();
                         if g.len() < 5 {
-                            g.push(format!("one read returned registers from different transactions: {:?}", &d[..d.len().min(6)]));
+                            g.push(format!("one read returned points from different transactions: {:?}", &d[..d.len().min(6)]));
                         }
                     }
                     let _ = &backwards;
@@ -417,11 +436,12 @@ fn stress(rt: &Rt, args: &Args, ev: &mut Evidence) {
     ev.count("stress_reads", reads.load(Ordering::SeqCst));
     ev.count("stress_transactions", txns.load(Ordering::SeqCst));
     ev.count("reads_overlapping_an_open_transaction", overlaps.load(Ordering::SeqCst));
-    ev.class("stress|atomicity|3_writers_6_readers");
+    ev.count(&format!("stress_reads_{kind_name}"), reads.load(Ordering::SeqCst));
+    ev.class(format!("stress|atomicity|3_writers_6_readers|{kind_name}"));
     for t in torn.lock().unwrap().iter() {
         ev.violation("transaction_not_atomic:torn_read", t.clone(), json!({"kind": "stress"}));
     }
-    ev.sample(json!({"stress": {"registers": N, "writers": 3, "readers": 6, "reads": reads.load(Ordering::SeqCst), "transactions": txns.load(Ordering::SeqCst), "reads_overlapping_open_transaction": overlaps.load(Ordering::SeqCst)}}));
+    ev.sample(json!({"stress": {"point_type": kind_name, "points": N, "writers": 3, "readers": 6, "reads": reads.load(Ordering::SeqCst), "transactions": txns.load(Ordering::SeqCst), "reads_overlapping_open_transaction": overlaps.load(Ordering::SeqCst)}}));
 }
 
 pub fn run(args: &Args) -> i32 {
@@ -432,7 +452,9 @@ pub fn run(args: &Args) -> i32 {
     for n in 0..seqs {
         sequential(&rt, args.seed, n, &mut ev);
     }
-    stress(&rt, args, &mut ev);
+    for kind in 0..4 {
+        stress(&rt, args, &mut ev, kind);
+    }
     unsafe { ffi::rodbus_runtime_destroy(rt.0) };
     if args.tier == Tier::Thorough && !args.extra.contains_key("no-legs") {
         crate::legs::miri_ffi(args, "C19", &mut ev);
